@@ -426,7 +426,7 @@ func (ex *Exec) flushFrames(st *State) {
 	ex.pendingFrames = nil
 	for _, f := range pf {
 		after := ex.heap(st, f.heap, f.sort)
-		goal := mk(SBool, fmt.Sprintf("(forall ((r Int)) (! (=> (< r %s) (= (select %s r) (select %s r))) :pattern ((select %s r))))", st.alloc0.S, after.S, f.before.S, after.S))
+		goal := mk(SBool, fmt.Sprintf("(forall ((r Int)) (! (=> (and (< 0 r) (< r %s)) (= (select %s r) (select %s r))) :pattern ((select %s r))))", st.alloc0.S, after.S, f.before.S, after.S))
 		if after.S == f.before.S {
 			goal = tTrue
 		}
